@@ -7,7 +7,7 @@ MON = {"io_stubs": False, "models": ["models/leak_monitor.c"]}
 OBLIGATIONS = [
     dict({"id": "C19.sm2_private_key_import", "harness": "harness/C19/keyimport.c", "entry": "h_private_key_container",
           "units": ["sm2_key.c", "asn1.c", "ec.c", "sm2_z256.c"],
-          "remove": {"sm2_key.c": KEY_RM, "sm2_z256.c": ["sm2_z256_point_mul_generator", "sm2_z256_point_to_uncompressed_octets", "sm2_z256_point_from_octets", "sm2_z256_point_equ",
+          "remove": {"sm2_key.c": KEY_RM, "sm2_z256.c": ["sm2_z256_point_mul_generator", "sm2_z256_point_to_uncompressed_octets", "sm2_z256_point_from_octets", "sm2_z256_point_equ", "sm2_z256_point_to_bytes", "sm2_z256_point_get_xy",
                                                          "sm2_z256_rand_range"] + Z256_IO,
                      "ec.c": ["ec_point_print", "ec_named_curve_print" ]},
           "unwind": 70, "timeout": 900,
